@@ -99,13 +99,19 @@ func run(c *lib.Ctx) error {
 	var gErr error
 	var wg sync.WaitGroup
 	wg.Add(1)
+	only := os.Getenv("C17_ONLY") // development aid: "gofn" or "sweep" runs one half only
 	go func() {
 		defer wg.Done()
-		gErr = runGoFn(c)
+		if only == "" || only == "gofn" {
+			gErr = runGoFn(c)
+		}
 	}()
 
 	// ---- G(2)/V: the sweep
-	sErr := runSweep(c, dir)
+	var sErr error
+	if only == "" || only == "sweep" {
+		sErr = runSweep(c, dir)
+	}
 	wg.Wait()
 	if gErr != nil {
 		return gErr
@@ -139,7 +145,7 @@ func runSweep(c *lib.Ctx, dir string) error {
 	}
 	nProbe := 0
 	for _, k := range c.KnownKeys() {
-		if p, ok := probeFromKey(k, tab); ok && !have[p.Code] && !clamped(p.Cmd, p.Classes) {
+		if p, ok := probeFromKey(k, tab); ok && !have[p.Code] && !clamped(p.Cmd, p.classes()) {
 			calls = append(calls, p)
 			have[p.Code] = true
 			nProbe++
@@ -195,52 +201,50 @@ func runSweep(c *lib.Ctx, dir string) error {
 	c.AddTraces(len(js))
 
 	// ---- rejected outcomes -> keys
-	kz := &keyer{sw: sw, tab: tab, cache: map[string]bool{}}
 	type rej struct {
 		key, what string
 		cl        call
 		o         outcome
 	}
 	var rejs []rej
-	var rmu sync.Mutex
-	var kErr error
-	lib.Parallel(len(bad), 6, func(bi int) {
-		b := bad[bi]
+	var crashed []int // indices into calls
+	for _, b := range bad {
 		cl, o := calls[b.Index], outs[b.Index]
 		why := ""
 		if len(b.Info) > 0 {
 			why, _ = b.Info[0].(string)
 		}
-		var key string
-		switch {
-		case o.Outcome == "live":
-			return // not a verdict: reported as a machinery problem below
-		case why == "hang:cross-band":
-			key = why
-		case o.Outcome == "blocked":
-			key = "hang:" + cl.stem()
-		default:
-			k, err := kz.crashKey(cl)
-			if err != nil {
-				rmu.Lock()
-				if kErr == nil {
-					kErr = err
-				}
-				rmu.Unlock()
-				return
-			}
-			key = k
-		}
 		d := o.Detail
 		if i := strings.Index(d, "\n"); i > 0 {
 			d = d[:i]
 		}
-		rmu.Lock()
-		rejs = append(rejs, rej{key, fmt.Sprintf("`%s` -> %s (%s); the specification accepts only a returned evaluation", cl.Code, o.Outcome, d), cl, o})
-		rmu.Unlock()
-	})
-	if kErr != nil {
-		return kErr
+		what := fmt.Sprintf("`%s` -> %s (%s); the specification accepts only a returned evaluation", cl.Code, o.Outcome, d)
+		switch {
+		case o.Outcome == "live":
+			// not a verdict: reported as a machinery problem below
+		case why == "hang:cross-band":
+			rejs = append(rejs, rej{why, what, cl, o})
+		case o.Outcome == "blocked":
+			rejs = append(rejs, rej{"hang:" + cl.stem(), what, cl, o})
+		default:
+			crashed = append(crashed, b.Index)
+			rejs = append(rejs, rej{"", what, cl, o})
+		}
+	}
+	var cc []call
+	for _, i := range crashed {
+		cc = append(cc, calls[i])
+	}
+	ckeys, err := crashKeys(sw, cc)
+	if err != nil {
+		return err
+	}
+	k := 0
+	for i := range rejs {
+		if rejs[i].key == "" {
+			rejs[i].key = ckeys[k]
+			k++
+		}
 	}
 	sort.Slice(rejs, func(i, j int) bool {
 		if rejs[i].key != rejs[j].key {
@@ -269,127 +273,85 @@ func runSweep(c *lib.Ctx, dir string) error {
 	return nil
 }
 
-// keyer computes the stable key of a crashing call: the arguments the crash does not depend on
-// (it persists when they are replaced by a valid value for that parameter) are written "*".
-type keyer struct {
-	sw    *sweeper
-	tab   []cmd
-	mu    sync.Mutex
-	cache map[string]bool
-}
-
-func (k *keyer) crashes(cl call) (bool, error) {
-	k.mu.Lock()
-	v, ok := k.cache[cl.Code]
-	k.mu.Unlock()
-	if ok {
-		return v, nil
+// crashKeys computes the stable key of every crashing call: "crash:<command>:<class>,…" where a
+// position is written "*" when the crash does not need it, i.e. the call still crashes with the
+// benign value at that position (greedy, left to right; every candidate is executed, in one batch
+// per position).  A key therefore names exactly the deviations from the benign call that crash.
+func crashKeys(sw *sweeper, cs []call) ([]string, error) {
+	type item struct {
+		srcs []string
+		star []bool
 	}
-	o, err := k.sw.runOne(cl)
-	if err != nil {
-		return false, err
+	items := make([]item, len(cs))
+	maxLen := 0
+	for i, c := range cs {
+		items[i] = item{c.srcs(), make([]bool, len(c.Slots))}
+		if len(c.Slots) > maxLen {
+			maxLen = len(c.Slots)
+		}
 	}
-	v = o.Outcome == "panic" || o.Outcome == "process-died"
-	k.mu.Lock()
-	k.cache[cl.Code] = v
-	k.mu.Unlock()
-	return v, nil
-}
-
-func (k *keyer) crashKey(cl call) (string, error) {
-	cur := cl
-	cur.Classes = append([]string{}, cl.Classes...)
-	switch cl.Kind {
-	case "call":
-		var cm *cmd
-		for j := range k.tab {
-			if k.tab[j].Name == cl.Cmd {
-				cm = &k.tab[j]
-			}
-		}
-		if cm == nil || len(cl.Classes) < 2 {
-			break
-		}
-		srcs := make([]string, len(cl.Classes))
-		for i, n := range cl.Classes {
-			if n == "*" {
-				srcs[i] = benign(*cm, i)
-			} else {
-				p, _ := classByName(n)
-				srcs[i] = p.Src
-			}
-		}
-		for i := range srcs {
-			if cur.Classes[i] == "*" {
+	isCrash := func(o outcome) bool { return o.Outcome == "panic" || o.Outcome == "process-died" }
+	for pos := 0; pos < maxLen; pos++ {
+		var batch []call
+		idx := map[string]int{}
+		var owners [][]int
+		for i, c := range cs {
+			if pos >= len(c.Slots) || len(c.Slots) < 2 {
 				continue
 			}
-			old := srcs[i]
-			srcs[i] = benign(*cm, i)
-			if srcs[i] == old {
+			if items[i].srcs[pos] == c.Slots[pos].Benign {
+				items[i].star[pos] = true
 				continue
 			}
-			cand := call{Kind: "call", Cmd: cl.Cmd, Code: cmdCode(*cm, srcs), Form: noForm}
-			still, err := k.crashes(cand)
-			if err != nil {
-				return "", err
+			srcs := append([]string{}, items[i].srcs...)
+			srcs[pos] = c.Slots[pos].Benign
+			code := code(c.Kind, c.Cmd, c.Mod, srcs)
+			j, ok := idx[code]
+			if !ok {
+				j = len(batch)
+				idx[code] = j
+				batch = append(batch, call{Kind: c.Kind, Cmd: c.Cmd, Code: code, Form: noForm})
+				owners = append(owners, nil)
 			}
-			if still {
-				cur.Classes[i] = "*"
-			} else {
-				srcs[i] = old
+			owners[j] = append(owners[j], i)
+		}
+		if len(batch) == 0 {
+			continue
+		}
+		outs, err := sw.run(batch)
+		if err != nil {
+			return nil, err
+		}
+		for j, o := range outs {
+			if o.Outcome == "live" || o.Outcome == "blocked" {
+				continue // cannot tell: keep the position
 			}
-		}
-	case "redir":
-		// classes: dst=<class>, <op>[&], src=<class>; code: "<cmd> <dst><op>[&]<src>"
-		sp := strings.LastIndex(cl.Code, " ")
-		head, word := cl.Code[:sp], cl.Code[sp+1:]
-		op := strings.TrimSuffix(cl.Classes[1], "&")
-		amp := strings.HasSuffix(cl.Classes[1], "&")
-		oi := strings.Index(word, op)
-		dst, src := word[:oi], word[oi+len(op):]
-		if amp {
-			src = strings.TrimPrefix(src, "&")
-		}
-		build := func(d, o string, a bool, s string) call {
-			w := d + o
-			if a {
-				w += "&"
-			}
-			return call{Kind: "redir", Cmd: "redir", Code: head + " " + w + s, Form: noForm}
-		}
-		// source first (a benign source is fd 1 after "&", a file name otherwise), then the
-		// destination (none), then the operator
-		try := func(cand call) (bool, error) { return k.crashes(cand) }
-		bs := "out.txt"
-		if amp {
-			bs = "1"
-		}
-		if src != bs {
-			if ok, err := try(build(dst, op, amp, bs)); err != nil {
-				return "", err
-			} else if ok {
-				src, cur.Classes[2] = bs, "*"
-			}
-		}
-		if dst != "" {
-			if ok, err := try(build("", op, amp, src)); err != nil {
-				return "", err
-			} else if ok {
-				dst, cur.Classes[0] = "", "*"
-			}
-		}
-		if op != ">" {
-			if ok, err := try(build(dst, ">", amp, src)); err != nil {
-				return "", err
-			} else if ok {
-				cur.Classes[1] = "*"
-				if amp {
-					cur.Classes[1] = "*&"
+			if isCrash(o) {
+				for _, i := range owners[j] {
+					items[i].srcs[pos] = cs[i].Slots[pos].Benign
+					items[i].star[pos] = true
 				}
 			}
 		}
 	}
-	return "crash:" + cur.stem(), nil
+	keys := make([]string, len(cs))
+	for i, c := range cs {
+		cls := c.classes()
+		all := len(cls) > 0
+		for p := range cls {
+			if items[i].star[p] {
+				cls[p] = "*"
+			} else {
+				all = false
+			}
+		}
+		if all {
+			// every position is benign: the benign call itself crashes; keep the classes
+			cls = c.classes()
+		}
+		keys[i] = "crash:" + c.Cmd + ":" + strings.Join(cls, ",")
+	}
+	return keys, nil
 }
 
 func replay(c *lib.Ctx) error {
@@ -445,14 +407,11 @@ func replay(c *lib.Ctx) error {
 		if why, _ := bad[0].Info[0].(string); why == "hang:cross-band" {
 			key = why
 		} else if o.Outcome != "blocked" {
-			tab, err := table(elv.New())
+			ks, err := crashKeys(sw, []call{cl})
 			if err != nil {
-				return lib.Infra("%v", err)
-			}
-			kz := &keyer{sw: sw, tab: tab, cache: map[string]bool{}}
-			if key, err = kz.crashKey(cl); err != nil {
 				return err
 			}
+			key = ks[0]
 		}
 		c.Reject(key, fmt.Sprintf("`%s` -> %s (%s)", cl.Code, o.Outcome, o.Detail), f.Case)
 	}
